@@ -108,6 +108,21 @@ class ReadOnlyInterface:
         raise AttributeError(name)
 
 
+class BareReader:
+    """an object that has read() and close() and nothing else - not even seekable()"""
+
+    def __init__(self, data):
+        self._b = io.BytesIO(data)
+        self.log = []
+
+    def read(self, n=-1):
+        self.log.append("read")
+        return self._b.read(n)
+
+    def close(self):
+        self.log.append("close")
+
+
 class NonSeekableWriter(LogStream):
     def seekable(self):
         self._l("seekable")
